@@ -15,7 +15,7 @@
    next to a float", "nulls spelled alike" and "no number next to a string"
    are gone; the remaining clauses are delimited by [_refuted] witnesses. *)
 From Coq Require Import List NArith ZArith QArith Permutation Sorted String.
-From YQ Require Import Base.Str Spec.Order Model.Sort Proofs.SortProofs Proofs.SortNoPanic.
+From YQ Require Import Base.Str Spec.Order Model.Sort Proofs.SortProofs Proofs.SortNoPanic Proofs.SortFirst.
 Import ListNotations.
 Open Scope Z_scope.
 
@@ -125,6 +125,17 @@ Proof.
   exact (conj (superlative_defined greater l Hok) (fun m => superlative_spec greater l m Hok)).
 Qed.
 Print Assumptions C15_min_max_agree.
+
+(* which of several best elements: the FIRST one in input order - every element before the answer is
+   strictly worse, no element after it is better (ties do not move the answer; sequences of any length) *)
+Theorem C15_min_max_first_of_ties : forall (greater : bool) (l : list (scalar * N)) (m : scalar * N),
+  (forall x y, In x l -> In y l -> ops_ok (fst x) (fst y) = true) ->
+  superlative greater l = Ok (Some m) ->
+  exists l1 l2, l = l1 ++ m :: l2
+    /\ (forall x, In x l1 -> sup_cmp greater (fst m) (fst x) = Lt)
+    /\ (forall x, In x l2 -> sup_cmp greater (fst m) (fst x) <> Gt).
+Proof. exact superlative_first. Qed.
+Print Assumptions C15_min_max_first_of_ties.
 
 (* ---------------- sort_keys(..) changes key order only ---------------- *)
 Theorem C15_sort_keys_only_order : forall (t : tree), unique_keys t ->
